@@ -56,6 +56,9 @@ class C03(core.Property):
         "HappyModel.C03.exchangeStaged_declaration_order",
         "HappyModel.C03.staged_exchange_depends_on_completion",
         "HappyModel.C03.staged_delivery_order_depends_on_completion",
+        "HappyModel.C03.coordRunIn_eq_coordRun",
+        "HappyModel.C03.coordinator_deterministic",
+        "HappyModel.C03.coordinator_worker_count_irrelevant",
     ]
     partial_theorems = {
         "HappyModel.C03.run_index_shift":
@@ -67,7 +70,8 @@ class C03(core.Property):
         "HappyModel.C03.run_ignores_foreign_state":
             "holds by construction of the model (run is a function of its arguments); stated for the record",
     }
-    hypotheses = ["Inv s (layout theorems): the C01 engine invariant, in particular distinct creation indices in the heap",
+    hypotheses = ["ValidSchedule sched n (coordinator theorems): every window's completion order names every partition slot exactly once",
+                  "Inv s (layout theorems): the C01 engine invariant, in particular distinct creation indices in the heap",
                   "IsCompletionOrder order n (exchange theorems): the completion order names every partition slot exactly once",
                   "Equivariant mc g: the handler commutes with renaming event ids by g (it may store, return and cancel ids, not compute with them)",
                   "StrictMono g on ids; g maps the fresh region nextId+j to nextId'+j"]
